@@ -91,8 +91,6 @@ Fixpoint seq_sim (c : circuit) (ordc : list (string * ninfo)) (qd : list (string
       forallb (λ p, eqb (w (lk m (pre p.1.1 d) t)) (x p.2) && eqb (w (lk m (pre p.1.1 q) t)) (st p.1.2)) qd &&
       seq_sim c ordc qd d q m w ins outs r (next_state qd x)
   end.
-Definition init_of (iv : init_vals) (b : string) : option gtype :=
-  match iv with IvNone => None | IvAll t => Some t | IvDict l => (λ p, p.2.2) <$> list_find (λ kt, kt.1 = b) l end.
 Definition seq_ok (C : Circuit) (n : nat) (d q : string) (afo : bool) (iv : init_vals) (ru : bool) (U : circuit) (m : iomap) : bool :=
   let c := c_g C in
   let qd := qd_pins C d q in
